@@ -51,6 +51,9 @@ def run(ctx):
     release_rules(ctx)
     disconnect_rules(ctx)
     lookups(ctx)
+    from .c09 import per_instance_registries
+    per_instance_registries(ctx, 'C13.D4', ('bus',),
+                            'connections of the bus share one table of names / rules')
     ctx.floor('C13.D1', 8)
     ctx.floor('C13.D2', 10)
     ctx.floor('C13.D3', 4)
